@@ -3,9 +3,12 @@
 //! The repository crates are built (in this separate workspace only) against a vendored
 //! hashbrown 0.17.1 whose default hash seed is owned by the harness (`verif_set_hash_seed`).
 //! That turns "whatever iteration order the runtime chooses" into an enumerable environment
-//! answer: for every program of an E1 family and a few library circuits (two non-primitive
-//! tables), every seed in 0..K, the upstream random seeding, and fresh child processes, the
-//! digest of every emitted artefact must be the same:
+//! answer: for every program of an E1 family and a few library circuits (Poseidon2 chains with
+//! the recompose table; every two-Poseidon2-table recursion backend configuration of the
+//! repository — KoalaBear quintic D=5, KoalaBear D=4, BabyBear D=4, Goldilocks D=2 — through
+//! the backend's own preprocessors / AIR builders, hand-made and as the real next-layer
+//! verification circuit, see backends.rs), every seed in 0..K, the upstream random seeding, and
+//! fresh child processes, the digest of every emitted artefact must be the same:
 //!   ops, witness numbering, public/private rows, expr->witness map (sorted), rewrite map,
 //!   generator order, preprocessed columns, AIR kinds/degrees, final preprocessed matrices,
 //!   preprocessed commitment.
@@ -34,6 +37,9 @@ use vpcore::{Ctx, Report, finish, quiet_catch};
 use vpe1::enumerate::{AK, Family, VK};
 use vpe1::explore::{SeenSet, Stats, explore, h128};
 use vpe1::prog::{Program, materialize};
+
+mod backends;
+mod glue;
 
 type F = BabyBear;
 type KB = KoalaBear;
@@ -247,12 +253,18 @@ fn poseidon_chain_components(chain: usize, recompose_use: bool) -> Result<Vec<(&
     Ok(out)
 }
 
-fn library() -> Vec<(String, Box<dyn Fn() -> Result<Vec<(&'static str, String)>, String> + Send + Sync>)> {
-    vec![
+type LibFn = Box<dyn Fn() -> Result<Vec<(&'static str, String)>, String> + Send + Sync>;
+
+fn library() -> Vec<(String, LibFn)> {
+    let mut v: Vec<(String, LibFn)> = vec![
         ("lib:poseidon2_chain1".into(), Box::new(|| poseidon_chain_components(1, false))),
         ("lib:poseidon2_chain3+recompose".into(), Box::new(|| poseidon_chain_components(3, true))),
         ("lib:poseidon2_chain2+recompose".into(), Box::new(|| poseidon_chain_components(2, true))),
-    ]
+    ];
+    // every recursion backend configuration of the repository with more than one
+    // non-primitive table (see backends.rs)
+    v.extend(backends::library());
+    v
 }
 
 fn families(thorough: bool) -> Vec<Family> {
@@ -418,6 +430,15 @@ fn main() {
     let thorough = !ctx.quick();
 
     set_seed(None);
+    if ctx.opt("libdump").is_some() {
+        // debugging aid: raw artefact renderings of the library circuits (seed 0)
+        set_seed(Some(0));
+        for (name, f) in library() {
+            let t = std::time::Instant::now();
+            println!("LIB {name}: {:?} ({:.3}s)", quiet_catch(|| f()), t.elapsed().as_secs_f64());
+        }
+        set_seed(None);
+    }
     let (list, list_exhaustive) = program_list(thorough, &ctx);
     let commit_every = if thorough { 20 } else { 50 };
     let seeds: Vec<u64> = (0..if thorough { 64 } else { 8 }).collect();
@@ -427,6 +448,19 @@ fn main() {
     let base = all_digests(&list, commit_every);
     let mut orders: BTreeMap<String, u64> = BTreeMap::new();
     *orders.entry(format!("{:?}", probe_order())).or_insert(0) += 1;
+    // library circuits: what was produced under seed 0 (an entry that stops at an error has
+    // fewer artefacts to compare; listed in the coverage)
+    let mut library_incomplete: Vec<String> = vec![];
+    for i in list.len()..base.len() {
+        let names: Vec<String> = base[i].iter().map(|(k, _)| name_of(*k)).collect();
+        let full = names.iter().any(|n| n == "commitment");
+        if !full {
+            library_incomplete.push(format!("{}: {:?}", entry_name(&list, i), names));
+        }
+        if ctx.opt("libdump").is_some() {
+            println!("library {} components={} full={full} {:?}", entry_name(&list, i), names.len(), base[i].iter().map(|(k, v)| format!("{}={v:016x}", name_of(*k))).collect::<Vec<_>>());
+        }
+    }
     let evaluations = AtomicU64::new(base.len() as u64);
     let mut runs_done = vec![json!({"mode": "seed", "seed": 0})];
     let mut complete = true;
@@ -544,6 +578,7 @@ fn main() {
         "programs": base.len(),
         "e1_program_list_exhaustive": list_exhaustive,
         "library_circuits": library().iter().map(|(n, _)| n.clone()).collect::<Vec<_>>(),
+        "library_circuits_without_full_artefact_set": library_incomplete,
         "environments": runs_done,
         "seeds_enumerated": seeds.len(),
         "exhaustive": list_exhaustive && complete,
